@@ -59,20 +59,25 @@ def run_seq_case(case) -> dict:
 
 
 def run_request_case(case) -> dict:
-    """case: ["req", flavour, stub_len, vt variant, sig, hs, auth(1/0)]"""
+    """case: ["req", flavour, stub_len, vt variant, sig, hs, auth(1/0)] - optional 8th element: further stub lengths for more requests on
+    the SAME connection.  hs: 1 = the server advertises header signing, 0 = it does not, 2 = it does not in its bind_ack but sets the
+    0x04 flag bit on the alter_context_resp (the client did not advertise on its alter_context then: still no header signing)."""
     import dpapi_ng._rpc as rpc
     import spnego.iov as siov
 
-    _, fl, n, vtv, sig, hs, auth = case
+    _, fl, n, vtv, sig, hs, auth = case[:7]
+    more = list(case[7]) if len(case) > 7 else []
+    lens = [n] + more
     world = W.World(n)
     record: list = []
     cfg = {"legs": 2, "sig": sig}
-    stub = bytes((i * 31 + 7) & 0xFF for i in range(n))
+    stubs = [bytes((i * 31 + 7 + 13 * k) & 0xFF for i in range(m)) for k, m in enumerate(lens)]
+    stub = stubs[0]
 
     def handler(server, conn, req):
         return ("response", b"\x11" * 8)
 
-    srv = peers.RpcServer({ECHO_IF: handler}, drive.stub_acceptor_factory(cfg) if auth else None, {"header_sign": bool(hs)})
+    srv = peers.RpcServer({ECHO_IF: handler}, drive.stub_acceptor_factory(cfg) if auth else None, {"header_sign": hs == 1, "alter_resp_extra_flags": 4 if hs == 2 else 0})
     world.add_route(DC, 135, srv)
     ctxs = [rpc.ContextElement(3, rpc.SyntaxId(*ECHO_IF), [rpc.NDR64])]
     vt = _vt_variants()[vtv]
@@ -82,113 +87,130 @@ def run_request_case(case) -> dict:
     def sync_work():
         with rpc.create_rpc_connection(DC, 135, auth_protocol=ap) as c:
             c.bind(ctxs)
-            return c.request(3, opnum, stub, verification_trailer=vt)
+            r = None
+            for st_ in stubs:
+                r = c.request(3, opnum, st_, verification_trailer=vt)
+            return r
 
     async def async_work():
         c = await rpc.async_create_rpc_connection(DC, 135, auth_protocol=ap)
         async with c:
             await c.bind(ctxs)
-            return await c.request(3, opnum, stub, verification_trailer=vt)
+            r = None
+            for st_ in stubs:
+                r = await c.request(3, opnum, st_, verification_trailer=vt)
+            return r
 
     with world.installed(ctx_factory=drive.stub_ctx_factory(cfg, record) if auth else None):
         out = drive.classify(sync_work) if fl == "sync" else drive.classify(lambda: drive.run_async(world, async_work, random.Random(n)))
 
     def V(cond, detail):
         return common.violation("C13", "request-framing", fl, cond, "", "",
-                                f"{detail}; stub_len={n} vt={vtv} sig={sig} header_sign={hs} auth={auth} outcome={out.brief()} {out.exc!r}")
+                                f"{detail}; stub_len={lens if more else n} vt={vtv} sig={sig} header_sign={hs} auth={auth} outcome={out.brief()} {out.exc!r}")
 
     probes = {f"hs_{hs}_auth_{auth}": 1, f"residue_{n % 16}": 1}
     res = {"digest": world.digest() + out.brief(), "key": common.key_hash(case), "fired": {"second_party_observations": 1}, "probes": probes,
            "vtime_ns": world.stats.get("vtime_ns", 0), "viol": None}
     reqs = [e for e in srv.log if e.get("event") == "request"]
-    if len(reqs) != 1:
+    if len(reqs) != len(lens):
         res["viol"] = V("no-request", f"receiver saw {len(reqs)} decodable request PDUs; log={[e.get('event') for e in srv.log]} {[e.get('error') for e in srv.log if e.get('error')]}")
         return res
-    e = reqs[0]
-    raw, pdu = e["raw"], e["pdu"]
-    # lengths (parse_pdu already enforces frag_len == len(raw))
-    if pdu["frag_len"] != len(raw):
-        res["viol"] = V("frag-len", "frag_len != size on the wire")
-        return res
-    if pdu["ctx_id"] != 3 or pdu["opnum"] != opnum or pdu["obj"] is not None or pdu["flags"] & 3 != 3:
-        res["viol"] = V("request-fields", f"ctx_id/opnum/flags wrong: {pdu['ctx_id']} {pdu['opnum']} {pdu['flags']}")
-        return res
-    exp_vt = _expected_vt(vtv)
-    if not auth:
-        if pdu["auth_len"] != 0 or pdu["auth"] is not None:
-            res["viol"] = V("auth-on-unauthenticated", "auth trailer on an unauthenticated connection")
-            return res
-        region = pdu["stub"]
-        pad_decl = 0
-    else:
-        a = pdu["auth"]
-        if a is None or pdu["auth_len"] != sig or len(a["value"]) != sig:
-            res["viol"] = V("auth-len", f"auth_len {pdu['auth_len']} != signature size {sig}")
-            return res
-        if a["level"] != 6:
-            res["viol"] = V("auth-level", f"auth level {a['level']}")
-            return res
-        if (a["offset"] - 24) % 16 != 0:
-            res["viol"] = V("sec-trailer-alignment", f"security trailer at offset {a['offset']}: {a['offset'] - 24} bytes after the stub start, not a multiple of 16")
-            return res
-        if "stub_padded" not in e:
-            res["viol"] = V("unseal-failed", f"independent receiver could not unseal/verify the request: {e.get('unseal_error')} {srv.violations[:2]}")
-            return res
-        region = e["stub_padded"]
-        pad_decl = a["pad"]
-    # layout of the cleartext region: stub | pad to 4 | verification trailer | auth padding
-    if region[:n] != stub:
-        res["viol"] = V("stub-bytes", "stub bytes on the wire differ from the argument")
-        return res
-    pos = n
-    if exp_vt is not None:
-        vt_off = n + (-n % 4)
-        got = region[vt_off : vt_off + len(exp_vt)]
-        if got != exp_vt:
-            found = region.find(rpce.VT_SIGNATURE)
-            res["viol"] = V("verification-trailer-position", f"verification trailer expected at offset {vt_off} (next 4-byte boundary), signature found at {found}")
-            return res
-        pos = vt_off + len(exp_vt)
-    elif rpce.VT_SIGNATURE in region:
-        res["viol"] = V("unexpected-verification-trailer", "verification trailer present although none was requested")
-        return res
-    if auth:
-        if len(region) - pos != pad_decl:
-            res["viol"] = V("pad-length", f"pad_length field {pad_decl} but {len(region) - pos} padding bytes were added")
-            return res
-        if pad_decl > 15:
-            probes["pad_over_15"] = 1
-        # what the security context was handed
-        wraps = [r for r in record if r[0] == "wrap"]
-        if len(wraps) != 1:
-            res["viol"] = V("wrap-calls", f"{len(wraps)} wrap calls for one request")
-            return res
-        bufs = wraps[0][1]
-        off = a["offset"]
-        want_type = int(siov.BufferType.sign_only) if hs else int(siov.BufferType.data_readonly)
-        if bufs[0][1] != raw[:24] or bufs[2][1] != raw[off : off + 8]:
-            res["viol"] = V("header-trailer-buffers", "PDU header / security trailer handed to the context differ from the bytes on the wire")
-            return res
-        if bufs[1][1] != region or bufs[1][0] != int(siov.BufferType.data):
-            res["viol"] = V("sealed-region", "the confidential buffer is not exactly the stub-plus-padding region")
-            return res
-        if bufs[0][0] != want_type or bufs[2][0] != want_type:
-            res["viol"] = V("header-sign-type", f"header/trailer buffer types {bufs[0][0]}/{bufs[2][0]} but header signing is {'on' if hs else 'off'}")
-            return res
-        if not wraps[0][2]:
-            res["viol"] = V("not-encrypted", "wrap called with encrypt=False")
-            return res
-        if e.get("sealed_stub") == region and len(region) > 0:
-            res["viol"] = V("cleartext-on-wire", "stub region went out in clear")
-            return res
-    else:
-        if len(region) != pos:
-            res["viol"] = V("trailing-bytes", "unexpected bytes after the stub on an unauthenticated request")
+    def judge_request(k_: int, n: int, stub: bytes):
+        e = reqs[k_]
+        raw, pdu = e["raw"], e["pdu"]
+        # lengths (parse_pdu already enforces frag_len == len(raw))
+        if pdu["frag_len"] != len(raw):
+            res["viol"] = V("frag-len", "frag_len != size on the wire")
+            return True
+        if pdu["ctx_id"] != 3 or pdu["opnum"] != opnum or pdu["obj"] is not None or pdu["flags"] & 3 != 3:
+            res["viol"] = V("request-fields", f"ctx_id/opnum/flags wrong: {pdu['ctx_id']} {pdu['opnum']} {pdu['flags']}")
+            return True
+        exp_vt = _expected_vt(vtv)
+        if not auth:
+            if pdu["auth_len"] != 0 or pdu["auth"] is not None:
+                res["viol"] = V("auth-on-unauthenticated", "auth trailer on an unauthenticated connection")
+                return True
+            region = pdu["stub"]
+            pad_decl = 0
+        else:
+            a = pdu["auth"]
+            if a is None or pdu["auth_len"] != sig or len(a["value"]) != sig:
+                res["viol"] = V("auth-len", f"auth_len {pdu['auth_len']} != signature size {sig}")
+                return True
+            if a["level"] != 6:
+                res["viol"] = V("auth-level", f"auth level {a['level']}")
+                return True
+            if (a["offset"] - 24) % 16 != 0:
+                res["viol"] = V("sec-trailer-alignment", f"security trailer at offset {a['offset']}: {a['offset'] - 24} bytes after the stub start, not a multiple of 16")
+                return True
+            if "stub_padded" not in e:
+                res["viol"] = V("unseal-failed", f"independent receiver could not unseal/verify the request: {e.get('unseal_error')} {srv.violations[:2]}")
+                return True
+            region = e["stub_padded"]
+            pad_decl = a["pad"]
+        # layout of the cleartext region: stub | pad to 4 | verification trailer | auth padding
+        if region[:n] != stub:
+            res["viol"] = V("stub-bytes", "stub bytes on the wire differ from the argument")
+            return True
+        pos = n
+        if exp_vt is not None:
+            vt_off = n + (-n % 4)
+            got = region[vt_off : vt_off + len(exp_vt)]
+            if got != exp_vt:
+                found = region.find(rpce.VT_SIGNATURE)
+                res["viol"] = V("verification-trailer-position", f"verification trailer expected at offset {vt_off} (next 4-byte boundary), signature found at {found}")
+                return True
+            pos = vt_off + len(exp_vt)
+        elif rpce.VT_SIGNATURE in region:
+            res["viol"] = V("unexpected-verification-trailer", "verification trailer present although none was requested")
+            return True
+        if auth:
+            if len(region) - pos != pad_decl:
+                res["viol"] = V("pad-length", f"pad_length field {pad_decl} but {len(region) - pos} padding bytes were added")
+                return True
+            if pad_decl > 15:
+                probes["pad_over_15"] = 1
+            # what the security context was handed
+            wraps = [r for r in record if r[0] == "wrap"]
+            if len(wraps) != len(lens):
+                res["viol"] = V("wrap-calls", f"{len(wraps)} wrap calls for {len(lens)} request(s)")
+                return True
+            bufs = wraps[k_][1]
+            off = a["offset"]
+            want_type = int(siov.BufferType.sign_only) if hs == 1 else int(siov.BufferType.data_readonly)
+            if bufs[0][1] != raw[:24] or bufs[2][1] != raw[off : off + 8]:
+                res["viol"] = V("header-trailer-buffers", "PDU header / security trailer handed to the context differ from the bytes on the wire")
+                return True
+            if bufs[1][1] != region or bufs[1][0] != int(siov.BufferType.data):
+                res["viol"] = V("sealed-region", "the confidential buffer is not exactly the stub-plus-padding region")
+                return True
+            if bufs[0][0] != want_type or bufs[2][0] != want_type:
+                res["viol"] = V("header-sign-type", f"header/trailer buffer types {bufs[0][0]}/{bufs[2][0]} but header signing is {'on' if hs == 1 else 'off'}")
+                return True
+            if not wraps[k_][2]:
+                res["viol"] = V("not-encrypted", "wrap called with encrypt=False")
+                return True
+            if e.get("sealed_stub") == region and len(region) > 0:
+                res["viol"] = V("cleartext-on-wire", "stub region went out in clear")
+                return True
+        else:
+            if len(region) != pos:
+                res["viol"] = V("trailing-bytes", "unexpected bytes after the stub on an unauthenticated request")
+                return True
+        probes["alloc_hint_eq_region"] = int(pdu["alloc_hint"] == len(region))
+        return False
+
+    for k_, (n_k, stub_k) in enumerate(zip(lens, stubs)):
+        if judge_request(k_, n_k, stub_k):
+            if more:
+                res["viol"] = dict(res["viol"], sig=res["viol"]["sig"].replace("C13/request-framing/", "C13/request-framing-same-connection/"),
+                                   detail=f"request #{k_ + 1} of {len(lens)} on one connection: " + res["viol"]["detail"])
             return res
     if out.kind != "ok":
         res["viol"] = V("call-failed", "a conforming exchange did not complete")
         return res
-    probes["alloc_hint_eq_region"] = int(pdu["alloc_hint"] == len(region))
+    if more:
+        probes["requests_on_one_connection"] = len(lens)
     return res
 
 
@@ -341,7 +363,9 @@ class C13(common.Check):
     id = "C13"
     level = "exploration"
     rule = ("request grid: stub length 0..320 x verification trailer {none, PCONTEXT|END, BITMASK+PCONTEXT|END} x signature size "
-            "{16,28,60,76} x header signing on/off (authenticated) plus unauthenticated requests, both flavours - enumerated completely; "
+            "{16,28,60,76} x header signing on/off (authenticated) plus unauthenticated requests, both flavours - enumerated completely; a server that "
+            "sets flag bit 0x04 only on its alter_context_resp (no header signing then); three requests on ONE authenticated connection for every pair of "
+            "stub-length residues mod 16; connections with different signature sizes one after the other in one process; "
             "reply path: GetKey replies from the reference DC whose envelope length sweeps every residue (DH key_length 5..12 incl. odd, "
             "domain/forest name lengths 0..7, seed and public-key replies) x server padding policy {pad to 16, pad to 4, extra 4k, exactly K for K in 0..15} so that "
             "pad_length 0..15 all occur; pairs of async GetKey calls in flight at once with replies of different lengths delivered in PRNG segments (NDR64 GetKey stubs are always 4-aligned, so K % 4 != 0 only arises from a lenient server: there a "
@@ -353,7 +377,7 @@ class C13(common.Check):
                   "DC": "model (RefDC)", "transport": "simulated"}
     assumptions = ["the quantifier is a parameter grid; what the simulation contributes is the second party (independent receiver, recording context)",
                    "alloc_hint is recorded, not judged"]
-    required_fired = tuple(f"reply_pad_{k}" for k in range(16)) + ("hs_1_auth_1", "hs_0_auth_1", "hs_0_auth_0", "seq_connections", "concurrent_replies", "alloc_hint_unpadded", "alloc_hint_zero", "sig_sizes_differ")
+    required_fired = tuple(f"reply_pad_{k}" for k in range(16)) + ("hs_1_auth_1", "hs_0_auth_1", "hs_0_auth_0", "hs_2_auth_1", "requests_on_one_connection", "seq_connections", "concurrent_replies", "alloc_hint_unpadded", "alloc_hint_zero", "sig_sizes_differ")
 
     def exhaustive(self, tier):
         return True
@@ -373,6 +397,15 @@ class C13(common.Check):
                             out.append(["req", fl, n, vtv, sig, hs, 1])
                     if vtv < 2:
                         out.append(["req", fl, n, vtv, 16, 0, 0])
+        for fl in ("sync", "async"):
+            # the server's alter_context_resp carries flag bit 0x04 although its bind_ack did not advertise header signing
+            for n in range(0, 48):
+                for sig in (16, 60):
+                    out.append(["req", fl, n, n % 2, sig, 2, 1])
+            # several requests on ONE connection: every pair of stub-length residues mod 16, then back to the first length
+            for n1 in range(0, 16):
+                for n2 in range(0, 16):
+                    out.append(["req", fl, n1, (n1 + n2) % 2, (16, 28, 60, 76)[(n1 + n2) % 4], (n1 + n2) % 2, 1, [16 + n2, n1 + 32]])
         for fl in ("sync", "async"):
             for a in (16, 28, 60, 76):
                 for b_ in (16, 28, 60, 76):
@@ -404,6 +437,10 @@ class C13(common.Check):
         return run_reply_case(case)
 
     def shrink(self, case):
+        if case[0] == "req" and len(case) > 7:
+            if len(case[7]) > 1:
+                yield case[:7] + [case[7][:1]]
+            return
         if case[0] == "req":
             _, fl, n, vtv, sig, hs, auth = case
             for m in sorted({0, 1, n % 16, n % 4, n // 2} - {n}):
@@ -432,7 +469,7 @@ class C13(common.Check):
 
     def sample_repr(self, case, res):
         if case[0] == "req":
-            return dict(zip(("kind", "flavour", "stub_len", "vt_variant", "sig_size", "header_sign", "authenticated"), case))
+            return dict(zip(("kind", "flavour", "stub_len", "vt_variant", "sig_size", "header_sign", "authenticated", "further_requests_on_the_connection"), case))
         if case[0] == "seq":
             return dict(zip(("kind", "flavour", "sig_sizes_of_consecutive_connections", "stub_len", "vt_variant"), case))
         if case[0] == "reply2":
